@@ -11,7 +11,7 @@ CHECK = {
                   "value kinds (and in three indentation styles x two header sharing modes with a rotating assignment of "
                   "17 value kinds), parsed by the real YAMLDictionary, printed by its printer, parsed and printed again "
                   "(same keys and values, text fixed point), and run through the real ParameterFile with keys present or "
-                  "defaulted: the used-values dump is read back and must return every value to the printed precision. "
+                  "defaulted: every key is requested twice from the same object (same answer both times), then the used-values dump is read back and must return every value to the printed precision. "
                   "Numbers: 3 487 integer magnitudes (2^p-3..2^p+3 for p <= 64, one and two non-zero digits at every "
                   "decimal position up to 10^19, neighbours of 10^k, digit patterns of every length, up to 2^64-1) x sign x "
                   "the 7 integer types with a convert specialisation (only values the type holds) are written positionally, "
